@@ -516,6 +516,14 @@ func codecGen(r *rand.Rand, n int, big bool) []Case {
 			k2 := k1 + strings.Repeat("y", 1000)
 			k3 := k2 + "z"
 			ops = append(ops, fmt.Sprintf("data %s:%s:0:1,%s:%s:0:2,%s:%s:0:3", hxs(k1), hxs("1"), hxs(k2), hxs("2"), hxs(k3), hxs("3")))
+			// wal records at the largest sizes Txn.Set admits (key and value both near 2^16: a record above 2^17 bytes),
+			// followed by small ones that must still be read back
+			{
+				bigK := longKey("w", 65535, "@7")
+				bigV := hx(bytes.Repeat([]byte{9}, 65535))
+				ops = append(ops, fmt.Sprintf("wal %s:%s:0:7,%s:%s:0:8;%s:%s:1:9", hxs("a@7"), hxs("x"), hxs(bigK), bigV, hxs("z@9"), hx(nil)))
+				tags["wal-record-above-2^17"] = true
+			}
 			for _, vl := range []int{65535, 65536} {
 				ops = append(ops, fmt.Sprintf("data %s:%s:0:1", hxs("k@1"), hx(bytes.Repeat([]byte{7}, vl))))
 			}
